@@ -47,6 +47,10 @@ pub struct WritePlan {
     pub max_chunk: usize,
     /// return one Interrupted before every n-th write call (0 = never)
     pub interrupt_every: usize,
+    /// io::ErrorKind of the injected stdout failure ("" = Other). WouldBlock and TimedOut are transient: the writer
+    /// fails once at the offset and accepts everything afterwards (what a caller that carries on would see).
+    #[serde(default)]
+    pub error_kind: String,
 }
 
 #[derive(Clone, Debug, Serialize, Deserialize, PartialEq)]
@@ -269,6 +273,7 @@ impl Read for FaultyReader {
 
 pub struct FaultyWriter {
     pub data: Vec<u8>,
+    kind: String,
     fail_at: Option<usize>,
     max_chunk: usize,
     interrupt_every: usize,
@@ -293,7 +298,20 @@ impl Write for FaultyWriter {
             let room = at.saturating_sub(self.data.len());
             if room == 0 {
                 self.failed = true;
-                return Err(io::Error::new(io::ErrorKind::Other, "injected write failure"));
+                let kind = match self.kind.as_str() {
+                    "WouldBlock" => io::ErrorKind::WouldBlock,
+                    "TimedOut" => io::ErrorKind::TimedOut,
+                    "BrokenPipe" => io::ErrorKind::BrokenPipe,
+                    "WriteZero" => io::ErrorKind::WriteZero,
+                    "ConnectionReset" => io::ErrorKind::ConnectionReset,
+                    "PermissionDenied" => io::ErrorKind::PermissionDenied,
+                    "OutOfMemory" => io::ErrorKind::OutOfMemory,
+                    _ => io::ErrorKind::Other,
+                };
+                if matches!(kind, io::ErrorKind::WouldBlock | io::ErrorKind::TimedOut) {
+                    self.fail_at = None;
+                }
+                return Err(io::Error::new(kind, "injected write failure"));
             }
             n = n.min(room);
         }
@@ -418,6 +436,7 @@ pub fn run_with(args: &[String], data: Vec<u8>, rplan: &ReadPlan, wplan: &WriteP
     };
     let out = Rc::new(RefCell::new(FaultyWriter {
         data: Vec::new(),
+        kind: wplan.error_kind.clone(),
         fail_at: wplan.stdout_fail_at,
         max_chunk: wplan.max_chunk,
         interrupt_every: wplan.interrupt_every,
@@ -426,6 +445,7 @@ pub fn run_with(args: &[String], data: Vec<u8>, rplan: &ReadPlan, wplan: &WriteP
     }));
     let err = Rc::new(RefCell::new(FaultyWriter {
         data: Vec::new(),
+        kind: String::new(),
         fail_at: wplan.stderr_fail_at,
         max_chunk: wplan.max_chunk,
         interrupt_every: wplan.interrupt_every,
